@@ -168,7 +168,13 @@ var plainStrings = []string{"", "x", "hello world", "a:b", "100%%", "%%", "é✓
 	"`back`tick", "*/ end of comment", "// not a comment", "/* open", "{{.Output}}", "}}{{", "{{ end }}", "%%!d(MISSING)", "%%v %%s %%[1]d", "${HOME}", "$(id)", "\\n not a newline", "\"; os.Exit(3); \"",
 	"a\r\nb", "\u2028\u2029", "\ufeffbom", strings.Repeat("long ", 1200)}
 
-func (g *G) plainString() string { return plainStrings[g.pick(len(plainStrings))] }
+func (g *G) plainString() string {
+	if g.chance(0.004) {
+		// one line of more than 64 KiB (a certificate bundle, a licence text): nothing may be cut off
+		return "BEGIN-" + strings.Repeat("0123456789abcdef", 4200+g.pick(3000)) + "-END"
+	}
+	return plainStrings[g.pick(len(plainStrings))]
+}
 
 // litCode renders a Go literal for a function argument.
 func (g *G) fnArgs() string {
